@@ -56,6 +56,9 @@ def run(chk):
             if f.qualname != "BaseConnector._release":
                 chk.violation("C06.release", n, K.short(n), f"insertion from {f.qualname}", "a connection enters the pool outside _release() (reuse predicate bypassed)")
 
+    # ---- C06.eofdone (shared with C02) ------------------------------------------------------------------
+    eof_at_completion(chk, repo)
+
     # ---- C06.reacquire -------------------------------------------------------------------------------------
     adds = K.exprs(get, "self._acquired.add($P)")
     if not adds:
@@ -278,3 +281,28 @@ def run(chk):
                     chk.violation("C06.closeonerror", n, "continue", "resp.release()", "the next hop starts while the intermediate response still holds its connection")
     chk.expect_count("C06.closeonerror", nr, 5, "raise sites in the redirect branch")
     chk.expect_count("C06.closeonerror", nc, 1, "continue in the redirect branch")
+
+
+def eof_at_completion(chk, repo, rule="C06.eofdone"):
+    """HttpPayloadParser.feed_data signals end-of-body to the stream only as the last act of the message: on every path the signal is
+    followed by `return PAYLOAD_COMPLETE, <rest>` with no further parsing state in between.  The stream's EOF is what releases a client
+    connection to the pool / lets a server start the next request, so input of *this* message must not be outstanding after it."""
+    HPM = "aiohttp/http_parser.py"
+    pp = repo.cls(HPM, "HttpPayloadParser")
+    fd = pp.methods["feed_data"]
+    helpers = {name for name, m in pp.methods.items() if name not in ("feed_data", "feed_eof", "__init__") and K.exprs(m, "self.payload.feed_eof()")}
+    g = cfg_of(fd.node)
+    def signals(n):
+        if not isinstance(n.ast, ast.AST):
+            return False
+        if K.node_has(n, "self.payload.feed_eof()"):
+            return True
+        return any(isinstance(c.func, ast.Attribute) and isinstance(c.func.value, ast.Name) and c.func.value.id == "self" and c.func.attr in helpers for c in K.node_calls(n))
+    starts = [n for n in g.nodes if n.in_finally_copy is None and signals(n)]
+    def complete(n):
+        return n.kind == "stmt" and isinstance(n.ast, ast.Return) and n.ast.value is not None and norm.raw(n.ast.value).replace(" ", "").startswith(("(PayloadState.PAYLOAD_COMPLETE,", "PayloadState.PAYLOAD_COMPLETE,"))
+    for s0 in starts:
+        K.must_pass(chk, rule, fd, [s0], complete,
+                    "end-of-body is signalled to the stream only when the whole message (trailer section and final CRLF included) has been consumed: the stream's EOF releases the connection for the next exchange, bytes of this message still outstanding would be read as the start of the next response",
+                    construct=K.short(s0.ast), missing="return PayloadState.PAYLOAD_COMPLETE, <rest> right after payload.feed_eof()")
+    chk.expect_count(rule, len(starts), 3, "end-of-body signals in HttpPayloadParser.feed_data")
